@@ -29,7 +29,7 @@ Definition get_or_neg1 (xs : list N) (i : N) : Z :=
 Definition mv_cell (f : list N) : res (list Z) :=
   '(n, xs) <- mv_open_o f ;;
   ret [Z.of_N n; get_or_neg1 xs 0; get_or_neg1 xs 1; get_or_neg1 xs (n / 2); get_or_neg1 xs (w64 (n + W64 - 1));
-       Z.of_N (fold_left (fun a x => w64 (a + x)) (firstn 64 (rev xs)) 0)].
+       Z.of_N (fold_left (fun a x => w64 (a + x)) (firstn 64 (rev_append xs [])) 0)].
 
 (* ---------- ZReorderMap::open ---------- *)
 Definition ro_open_o (f : list N) : res (N * bool * list (N * N)) :=
